@@ -25,6 +25,7 @@
 #include "vdrv.h"
 #include <stdbool.h>
 #include "scale.h"
+#include "tzob.h"
 #include "ref/civil_c15.h"
 /* data only: the month-start tables, for their coverage */
 #include "dat_ummulqura.c"
@@ -182,6 +183,8 @@ hsucc_p(int s, echs_instant_t a, echs_instant_t b)
 	return b.y == a.y + 1U && b.m == 1U;
 }
 
+static echs_tzob_t zone[2];
+
 static void
 g2h_year(int s, int Y)
 {
@@ -239,6 +242,19 @@ g2h_year(int s, int Y)
 		if (hx.intra != g.intra) {
 			snprintf(sig, sizeof(sig), "intra-changed/%s/g2h", tname[s]);
 			vd_viol(sig, "%s: time part of %04d-%02d-%02d changed %#x -> %#x", sname[s], c.y, c.m, c.d, g.intra, hx.intra);
+		}
+		/* the same day carrying a time zone: the zone rides along, the date must not see it */
+		for (int zi = 0; zi < 2; zi++) {
+			const echs_instant_t gz = echs_instant_attach_tzob(g, zone[zi]);
+			const echs_instant_t hz = echs_instant_rescale(gz, (echs_scale_t)s);
+			vd_sh->evals++;
+			if (echs_instant_detach_tzob(hz).u != h.u || echs_instant_tzob(hz) != zone[zi]) {
+				snprintf(sig, sizeof(sig), "zoned-differs/%s/g2h", tname[s]);
+				vd_viol(sig, "%s: %04d-%02d-%02d maps to %s, the same day with zone %s attached maps to %s (zone afterwards %s)", sname[s], c.y, c.m, c.d,
+					hstr(b1, sizeof(b1), h), zi ? "America/New_York" : "Europe/Berlin", hstr(b2, sizeof(b2), echs_instant_detach_tzob(hz)),
+					echs_instant_tzob(hz) == zone[zi] ? "kept" : "lost");
+				break;
+			}
 		}
 		/* way back */
 		back = echs_instant_rescale(h, SCALE_GREGORIAN);
@@ -437,6 +453,8 @@ enumerate(void)
 		fprintf(stderr, "c15: civil calendar reference fails its self test\n");
 		_exit(3);
 	}
+	zone[0] = echs_tzob("Europe/Berlin", 13U);
+	zone[1] = echs_tzob("America/New_York", 16U);
 	if (!strcmp(mode, "g2h")) {
 		for (int Y = y0; Y <= y1; Y++) {
 			for (int s = SCALE_HIJRI_IA; s <= SCALE_HIJRI_DIYANET; s++) {
